@@ -176,6 +176,7 @@ Theorem hdr_lookup_needs_nodup :
   Permutation [([1], [[10]]); ([1], [[20]])] [([1], [[20]]); ([1], [[10]])] /\
   hdr_lookup [([1], [[10]]); ([1], [[20]])] [1] <> hdr_lookup [([1], [[20]]); ([1], [[10]])] [1].
 Proof. exact Purity.hdr_lookup_needs_nodup. Qed.
+Print Assumptions hdr_lookup_needs_nodup.
 
 (* ---- bundle signatures: subset-hashes is a Go map (URL -> hashes) -------------- *)
 Theorem encode_subset_perm : forall s s' : signed_subset,
@@ -489,6 +490,27 @@ Example ex_bundle_perm_hyps :
                     && headers_eqb (bx_hdr (fst p)) (bx_hdr (snd p)))
           (combine (b_exchanges (ex_b1 false)) (b_exchanges (ex_b1 true))) = true.
 Proof. vm_compute. split; reflexivity. Qed.
+
+(* ... as propositions, for the b2 example *)
+Example ex_b_write_perm_hyps :
+  Forall2 bx_perm (b_exchanges (ex_b2 false)) (b_exchanges (ex_b2 true)) /\
+  Forall hdr_is_map (b_exchanges (ex_b2 false)) /\
+  b_write (ex_b2 false) = b_write (ex_b2 true).
+Proof.
+  destruct ex_shuffled as (P1 & _ & _).
+  assert (F : Forall2 bx_perm (b_exchanges (ex_b2 false)) (b_exchanges (ex_b2 true))).
+  { cbn [ex_b2 b_exchanges]. repeat constructor; cbn [bx_hdr]; try exact P1.
+    apply Permutation_rev. }
+  assert (M : Forall hdr_is_map (b_exchanges (ex_b2 false))).
+  { cbn [ex_b2 b_exchanges]. unfold hdr_is_map. cbn [bx_hdr].
+    repeat (apply Forall_cons; [|]); try apply Forall_nil;
+      cbn [map fst ex_resph ex_reqh hd];
+      repeat (apply NoDup_cons; [cbn [In]; intros H;
+                repeat (destruct H as [H|H]; [vm_compute in H; discriminate H|]); exact H|]);
+      apply NoDup_nil. }
+  split; [exact F|]. split; [exact M|].
+  apply b_write_perm; try reflexivity; assumption.
+Qed.
 
 Definition ex_rh (n : N) : resp_hashes :=
   {| rh_variants := []; rh_hashes := [{| ri_hsha := [n; n; n]; ri_integ := s2b "digest/mi-sha256-03" |}] |}.
